@@ -499,6 +499,38 @@ def check_tables(ctx, card_recs):
                 _viol(ctx, dict(site="SimpleRandomSamplingWithoutReplacement.log_prob", kind="normalisation"),
                       "probabilities over the %d support elements are 1/%r; they do not sum to one (spec: 1/%d each)" % (
                           len(ints), sorted(set(ints)), s["binom"]), dict(case, osz=osz))
+    # batched distributions: whenever the distribution CLAIMS an enumerable support (has_enumerate_support), every
+    # batch element's enumerated support must be its own (right number of ones) and its probabilities sum to one --
+    # in particular for batches whose elements share `total` but not `given`
+    by_key = {(s["total"], s["given"]): s for s in supports}
+    pairs = [(a, b) for a in supports for b in supports if a["total"] == b["total"] and a["total"] >= 1]
+    for a, b in pairs:
+        total = a["total"]
+        case = dict(type="support_batch", total=total, given=[a["given"], b["given"]])
+        try:
+            d = SRS(torch.tensor([a["given"], b["given"]]), torch.tensor([total, total]), total)
+            if not d.has_enumerate_support:
+                ctx.count("batched_srs_without_enumerable_support")
+                continue
+            sup = _est.quiet(d.enumerate_support)       # (S, 2, total)
+            lp = _est.quiet(d.log_prob, sup)            # (S, 2)
+        except Exception as ex:
+            _viol(ctx, dict(site="SimpleRandomSamplingWithoutReplacement.enumerate_support", kind="exception", exc=type(ex).__name__,
+                            batched=True), "raised %r" % ex, case)
+            continue
+        ctx.case(key=("support_batch", total, a["given"], b["given"]), nontrivial=a["given"] != b["given"], n=1)
+        for j, s_ in enumerate((a, b)):
+            rows = sorted({tuple(int(v) for v in row) for row in sup[:, j].tolist()})
+            want = sorted(tuple(x) for x in s_["seqs"])
+            psum = float(lp[:, j].double().exp().sum()) if sorted(tuple(int(v) for v in row) for row in sup[:, j].tolist()) == want else None
+            if rows != want:
+                _viol(ctx, dict(site="SimpleRandomSamplingWithoutReplacement.enumerate_support", kind="support_set", batched=True),
+                      "batch element %d (given %d of %d): enumerated %r, spec %r" % (j, s_["given"], total, rows, want), case)
+                break
+            if psum is not None and abs(psum - 1.0) > 1e-5:  # float32 log-probabilities
+                _viol(ctx, dict(site="SimpleRandomSamplingWithoutReplacement.log_prob", kind="normalisation", batched=True),
+                      "batch element %d: probabilities over its enumerated support sum to %r" % (j, psum), case)
+                break
     # tensor variant of the enumeration, batched over all (total, given)
     tot = torch.tensor([s["total"] for s in supports])
     giv = torch.tensor([s["given"] for s in supports])
